@@ -9,9 +9,12 @@
     the heights it touches (store.getRangeByHeight reads the header at [to-1] by
     height and then walks DOWN through LastHeader hash links).
 
-    Store failures are an input ([fault]): none, every context-taking read
-    blocks until the request context's deadline (RequestTimeout) and returns
-    its error, or every read fails at once with some other error. *)
+    Store failures are an input: a mode ([fault]: none / the call blocks until
+    the request context's deadline (RequestTimeout) and returns the context's
+    error / the call fails at once with some other error) PER KIND of
+    context-taking store call ([kfault]: Head, GetRange, Get may each have their
+    own mode; HasAt returns a bare bool and is not faulted).  [handle f] with a
+    single [fault] is the special case "the same mode for every call kind". *)
 From GH Require Import Base.Prelude.
 
 Definition max_req : N := 64.            (* header.MaxRangeRequestSize *)
@@ -155,6 +158,12 @@ Fixpoint down_from (top : N) (n : nat) : list N :=
 
 (** ** the server (p2p/server.go) *)
 
+(** kinds of store calls; a failure mode per kind *)
+Inductive ckind := KHasAt | KHead | KTail | KGetRange | KGet.
+Definition kfault := ckind -> fault.
+(** one mode for every call kind *)
+Definition same (f : fault) : kfault := fun _ => f.
+
 Definition fault_err (f : fault) : err := match f with FSlow => EDeadline | _ => EOther end.
 
 Definition call_head (f : fault) (st : store) : outcome hdr :=
@@ -184,24 +193,27 @@ Definition serve_range (f : fault) (st : store) (from to : N) (pre : list call)
    | x => x
    end, pre ++ cs).
 
-(** handleRangeRequest(from, to) *)
-Definition handle_range (f : fault) (st : store) (from to : N) : outcome (list hdr) * list call :=
+(** handleRangeRequest(from, to); Head and GetRange each fail in their own mode *)
+Definition handle_range_k (kf : kfault) (st : store) (from to : N) : outcome (list hdr) * list call :=
   if to <=? from then (Fail ERangeMixUp, [])
-  else if from =? 0 then handle_head f st
+  else if from =? 0 then handle_head (kf KHead) st
   else if max_req <? sub64 to from then (Fail ELimit, [])
   else
     let top := sub64 to 1 in
-    if has_at st top then serve_range f st from to [CHasAt top]
+    if has_at st top then serve_range (kf KGetRange) st from to [CHasAt top]
     else
       let pre := [CHasAt top; CHead] in
-      match call_head f st with
+      match call_head (kf KHead) st with
       | Fail e => (Fail e, pre)
       | Crash => (Crash, pre)
       | Ret hd =>
         if h_height hd <? from then (Fail ENotFound, pre)
         else if top <=? h_height hd then (Fail ENotFound, pre)
-        else serve_range f st from (wrap64 (h_height hd + 1)) pre
+        else serve_range (kf KGetRange) st from (wrap64 (h_height hd + 1)) pre
       end.
+
+Definition handle_range (f : fault) (st : store) (from to : N) : outcome (list hdr) * list call :=
+  handle_range_k (same f) st from to.
 
 (** handleRequestByHash *)
 Definition handle_hash (f : fault) (st : store) (id : N) : outcome (list hdr) * list call :=
@@ -220,12 +232,14 @@ Definition status (r : outcome (list hdr)) : reply :=
   end.
 
 (** requestHandler, from the decoded request on *)
-Definition handle (f : fault) (st : store) (rq : req) : reply * list call :=
+Definition handle_k (kf : kfault) (st : store) (rq : req) : reply * list call :=
   match rq with
   | RInvalid => (Reset, [])
-  | RHash id _ => let '(r, cs) := handle_hash f st id in (status r, cs)
-  | ROrigin o a => let '(r, cs) := handle_range f st o (wrap64 (o + a)) in (status r, cs)
+  | RHash id _ => let '(r, cs) := handle_hash (kf KGet) st id in (status r, cs)
+  | ROrigin o a => let '(r, cs) := handle_range_k kf st o (wrap64 (o + a)) in (status r, cs)
   end.
+
+Definition handle (f : fault) (st : store) (rq : req) : reply * list call := handle_k (same f) st rq.
 
 (** ** the same handler against a store that changes while the request is served
 
@@ -235,33 +249,37 @@ Definition handle (f : fault) (st : store) (rq : req) : reply * list call :=
     sees, as a function of the kinds of the calls that have already returned
     (oldest first): any change at any call boundary is an [env].  Each single
     call reads one content (store.Store serves a call from one read view). *)
-Inductive ckind := KHasAt | KHead | KTail | KGetRange | KGet.
 Definition env := list ckind -> store.
 
-Definition handle_range_d (f : fault) (e : env) (from to : N) : outcome (list hdr) * list call :=
+Definition handle_range_dk (kf : kfault) (e : env) (from to : N) : outcome (list hdr) * list call :=
   if to <=? from then (Fail ERangeMixUp, [])
-  else if from =? 0 then handle_head f (e [])
+  else if from =? 0 then handle_head (kf KHead) (e [])
   else if max_req <? sub64 to from then (Fail ELimit, [])
   else
     let top := sub64 to 1 in
-    if has_at (e []) top then serve_range f (e [KHasAt]) from to [CHasAt top]
+    if has_at (e []) top then serve_range (kf KGetRange) (e [KHasAt]) from to [CHasAt top]
     else
       let pre := [CHasAt top; CHead] in
-      match call_head f (e [KHasAt]) with
+      match call_head (kf KHead) (e [KHasAt]) with
       | Fail x => (Fail x, pre)
       | Crash => (Crash, pre)
       | Ret hd =>
         if h_height hd <? from then (Fail ENotFound, pre)
         else if top <=? h_height hd then (Fail ENotFound, pre)
-        else serve_range f (e [KHasAt; KHead]) from (wrap64 (h_height hd + 1)) pre
+        else serve_range (kf KGetRange) (e [KHasAt; KHead]) from (wrap64 (h_height hd + 1)) pre
       end.
 
-Definition handle_d (f : fault) (e : env) (rq : req) : reply * list call :=
+Definition handle_range_d (f : fault) (e : env) (from to : N) : outcome (list hdr) * list call :=
+  handle_range_dk (same f) e from to.
+
+Definition handle_dk (kf : kfault) (e : env) (rq : req) : reply * list call :=
   match rq with
   | RInvalid => (Reset, [])
-  | RHash id _ => let '(r, cs) := handle_hash f (e []) id in (status r, cs)
-  | ROrigin o a => let '(r, cs) := handle_range_d f e o (wrap64 (o + a)) in (status r, cs)
+  | RHash id _ => let '(r, cs) := handle_hash (kf KGet) (e []) id in (status r, cs)
+  | ROrigin o a => let '(r, cs) := handle_range_dk kf e o (wrap64 (o + a)) in (status r, cs)
   end.
+
+Definition handle_d (f : fault) (e : env) (rq : req) : reply * list call := handle_dk (same f) e rq.
 
 (** ** projections of the call log *)
 
@@ -283,3 +301,61 @@ Fixpoint get_calls (cs : list call) : list N :=
 (** every height touched by the request, in order *)
 Definition heights_read (cs : list call) : list N :=
   concat (map (fun c => snd (fst c)) (range_calls cs)).
+
+(** ** time: "nor hangs beyond its timeouts"
+
+    requestHandler derives ONE context per request, context.WithTimeout(serv.ctx,
+    RequestTimeout), and hands it to every store call of the request (HasAt,
+    Head, GetRange, Get); the calls are made one after the other on the
+    handler's goroutine, so call i+1 starts when call i has returned.
+
+    ASSUMPTION of this small time model (not proved here, it is a property of the
+    header.Store given to the server): a store call honours its context, i.e.
+    it returns at the latest when the context's deadline passes.  [d c] is the
+    time call [c] would take on its own (any N, as large as one likes); with the
+    request deadline at [T] (time 0 = creation of the request context) a call
+    started at [t] returns at min(t + d c, T).  [finish T d t cs] is the instant
+    the last call of the log [cs] returns.  The handler's own computation between
+    calls is taken as instantaneous; reading the request and writing the reply
+    have their own stream deadlines (ReadDeadline, WriteDeadline) and are not part
+    of this model. *)
+Fixpoint finish (T : N) (d : call -> N) (t : N) (cs : list call) : N :=
+  match cs with
+  | [] => t
+  | c :: r => finish T d (N.min (t + d c) T) r
+  end.
+
+(** the failure mode that applies to a logged call *)
+Definition fault_of (kf : kfault) (c : call) : fault :=
+  match c with
+  | CHasAt _ => FNone
+  | CHead => kf KHead
+  | CGet _ => kf KGet
+  | CGetRange _ _ _ _ => kf KGetRange
+  end.
+
+(** durations under the fault modes of the harness: a blocking call never
+    returns by itself (it takes at least [T]), the others return at once *)
+Definition fault_dur (kf : kfault) (T : N) (c : call) : N :=
+  match fault_of kf c with FSlow => T | _ => 0 end.
+
+Definition is_slow (f : fault) : bool := match f with FSlow => true | _ => false end.
+
+(** the exact shapes a request's call log can have *)
+Definition log_shape (cs : list call) : bool :=
+  match cs with
+  | [] | [CHead] | [CGet _] => true
+  | [CHasAt _; CHead] | [CHasAt _; CGetRange _ _ _ _] => true
+  | [CHasAt _; CHead; CGetRange _ _ _ _] => true
+  | _ => false
+  end.
+
+Definition is_none (f : fault) : bool := match f with FNone => true | _ => false end.
+
+(** only the last call of a log may be a failing / blocking one: nothing is retried,
+    nothing else is asked of the store after a call came back with an error *)
+Fixpoint faulty_only_last (kf : kfault) (cs : list call) : bool :=
+  match cs with
+  | [] => true
+  | c :: r => match r with [] => true | _ => is_none (fault_of kf c) && faulty_only_last kf r end
+  end.
